@@ -157,6 +157,10 @@ func argClass(c callT) string {
 		return "out_of_range"
 	case c.Tok == "list_mixed" || c.Tok == "list_bad" || c.Tok == "map_list":
 		return "list_items"
+	case c.Tok == "renamed" || c.Tok == "unnamed" || c.Tok == "scope_renamed":
+		return "display_name_differs"
+	case c.Tok == "collide" || c.Tok == "typed_collide":
+		return "collide"
 	case c.Tok == "data_partial" || c.Tok == "props_partial" || c.Tok == "schema_partial":
 		return "omits_required"
 	}
@@ -359,7 +363,7 @@ var opTable = map[string][][2]string{
 	"disabled":  {{"unser", "uses_disabled"}, {"compat", "uses_disabled"}, {"unser", "keeps"}},
 	"objmap":    {{"unser", "rand"}, {"unser", "rand"}, {"unser", "bad"}, {"valid", "rand"}, {"ser", "rand"}},
 	"objstruct": {{"unser", "rand"}, {"unser", "rand"}, {"unser", "rand"}, {"unser", "bad"}, {"ser", "full"}, {"valid", "full"}},
-	"mapcoll":   {{"unser", "collide"}, {"unser", "single"}, {"unser", "bad"}},
+	"mapcoll":   {{"unser", "collide"}, {"unser", "single"}, {"unser", "bad"}, {"unser", "typed_collide"}},
 	"objreq": {{"compat", "data_partial"}, {"compat", "data_full"}, {"compat", "props_partial"}, {"compat", "schema_partial"},
 		{"compat", "schema_full"}, {"unser", "data_partial"}, {"unser", "data_full"}},
 	"oneof": {{"unser", "member_a"}, {"unser", "nodisc"}, {"ser", "member_a"}, {"valid", "member_a"}, {"compat", "member_a"},
@@ -368,7 +372,8 @@ var opTable = map[string][][2]string{
 	"compat2": {{"compat", "same"}, {"compat", "deep"}},
 	"objnest": {{"unser", "nrand"}, {"unser", "lim_rand"}, {"unser", "lim_rand"}, {"unsermid", "lim_rand"}},
 	"objdep":  {{"valid", "dep"}, {"valid", "dep"}, {"ser", "dep"}, {"unser", "dep"}},
-	"enum":    {{"compat", "same"}, {"compat", "extra"}, {"unser", "member"}, {"unser", "bad"}},
+	"enum": {{"compat", "same"}, {"compat", "extra"}, {"compat", "renamed"}, {"compat", "unnamed"}, {"compat", "scope_renamed"},
+		{"compat", "scope_same"}, {"unser", "member"}, {"unser", "bad"}},
 }
 
 func runRandom(c caseT) (r resT) {
